@@ -18,8 +18,10 @@ RULE = (
     "NetworkInterface.enable()}) on a subject node 's' with an always-on peer 'p' (and a second peer 'q' behind network nodes). "
     "Exhaustive part: every sequence of the 8-symbol alphabet to depth 3 (quick) / 4 (thorough) that contains at least one "
     "shutdown or reset (sequences without one never leave ON), plus every sequence one op shorter on a node declared OFF, "
-    "plus two enumerated families (whole power cycles after preparing PAUSED/STOPPED/DISABLED services and CLOSED "
-    "applications; each enable()-reaching API operation once in each non-ON state), "
+    "plus three enumerated families (whole power cycles after preparing PAUSED/STOPPED/DISABLED services and CLOSED "
+    "applications; each enable()-reaching API operation once in each non-ON state; a multi-tick activity - application "
+    "install, service restart/fix, application fix, folder scan/restore, node scans - started just before a shutdown or "
+    "reset and ticked through the whole cycle, with a countdown+state fingerprint compared tick by tick while not ON), "
     "for every node type and every duration pair in {0,1}^2 "
     "(quick) / {0,1,2}^2 (thorough); random part: Hypothesis sequences to depth 25 (blocks 'power request + 0..8 ticks / "
     "foreign operations') with durations in {0..4}^2 and the initial state ON or OFF. After every op the reference power "
@@ -49,6 +51,9 @@ ASSUMPTIONS = [
     "back to ON: power_on 'starts all Services and Applications' (base_hardware.rst) => every service that was RUNNING, "
     "PAUSED or STOPPED and every application that was RUNNING or CLOSED when the node left ON is RUNNING afterwards; "
     "DISABLED / RESTARTING / INSTALLING software is not asserted either way",
+    "a tick that starts and ends with the node not ON must leave every software/folder/file/node countdown and state as "
+    "it was (idle folder countdowns <= 0 read as 0); the only exception is the tick completing a shutdown, where a "
+    "service may go RUNNING/PAUSED -> STOPPED and an application RUNNING -> CLOSED (_shut_down_actions)",
     "API-level 'other operations' (interface.enable(), Router.enable_port, Firewall/WirelessRouter configure_*_port, "
     "Network.connect of a spare interface to an extra unlinked computer 'x', NetworkInterface.setup_for_episode) are "
     "public methods documented to refuse a node that is not powered on; they are issued in every power state",
@@ -154,6 +159,7 @@ _REQ_MEMO: Dict[str, Dict[str, List]] = {}
 SVC_VERBS = ["scan", "stop", "start", "pause", "resume", "disable", "enable"]
 APP_VERBS = ["close", "scan"]
 API_OPS = ["enable", "enable_port", "configure", "connect", "episode"]
+ACTS = ["install", "svc-restart", "svc-fix", "app-fix", "folder-scan", "folder-restore", "node-scan", "red-scan"]  # multi-tick
 FILE_VERBS = ["create", "delete", "scan"]
 FILE_NAMES = ["x.txt", "y.txt"]
 
@@ -191,6 +197,13 @@ def requests(kind: str) -> Dict[str, List]:
     if app:
         for v in APP_VERBS:
             r[f"app-{v}"] = am.form_request(f"node-application-{v}", {**n, "application_name": app})
+    if app:
+        r["act-app-fix"] = am.form_request("node-application-fix", {**n, "application_name": app})
+        r["act-install"] = am.form_request("node-application-install", {**n, "application_name": "database-client"})
+    r["act-folder-scan"] = am.form_request("node-folder-scan", {**n, "folder_name": "root"})
+    r["act-folder-restore"] = am.form_request("node-folder-restore", {**n, "folder_name": "root"})
+    r["act-node-scan"] = am.form_request("node-os-scan", n)
+    r["act-red-scan"] = ["network", "node", S, "scan"]
     if kind in HOSTS:
         r["nic-disable"] = am.form_request("host-nic-disable", {**n, "nic_num": port})
         r["nic-enable"] = am.form_request("host-nic-enable", {**n, "nic_num": port})
@@ -201,6 +214,8 @@ def requests(kind: str) -> Dict[str, List]:
     if sv:
         for v in SVC_VERBS:
             r[f"service-{v}"] = am.form_request(f"node-service-{v}", {**n, "service_name": sv})
+        r["act-svc-restart"] = am.form_request("node-service-restart", {**n, "service_name": sv})
+        r["act-svc-fix"] = am.form_request("node-service-fix", {**n, "service_name": sv})
     rule = dict(src_ip="ALL", protocol_name="icmp", permission="PERMIT", position=5, dst_ip="ALL", src_port="ALL",
                 dst_port="ALL", src_wildcard="NONE", dst_wildcard="NONE")
     if kind in ROUTERS:
@@ -444,6 +459,21 @@ class Sim:
     def software_states(self) -> Tuple[Dict[str, str], Dict[str, str]]:
         return ({x.name: x.operating_state.name for x in self.s.services.values()},
                 {x.name: x.operating_state.name for x in self.s.applications.values()})
+
+    def activity_fp(self) -> Dict[str, Tuple]:
+        """Countdowns and states of everything that takes several ticks; idle (<= 0) folder countdowns read as 0."""
+        n = self.s
+        sw = tuple(sorted(
+            (x.name, "service" if x.name in {y.name for y in n.services.values()} else "application",
+             x.operating_state.name, x.health_state_actual.name, x.health_state_visible.name, x._fixing_countdown,
+             getattr(x, "restart_countdown", None), getattr(x, "install_countdown", None), x.fixing_count)
+            for x in n.software_manager.software.values()))
+        fs = tuple(sorted(
+            (f.name, max(f.scan_countdown, 0), max(f.red_scan_countdown, 0), max(f.restore_countdown, 0),
+             f.health_status.name, f.visible_health_status.name, f.deleted, f.revealed_to_red,
+             tuple(sorted((x.name, x.health_status.name, x.visible_health_status.name, x.deleted) for x in f.files.values())))
+            for f in n.file_system.folders.values()))
+        return {"software": sw, "file_system": fs, "node": (n.node_scan_countdown, n.red_scan_countdown)}
 
     def links_up(self) -> List[str]:
         """Links attached to an interface of the subject that report themselves up."""
@@ -733,6 +763,30 @@ def check_not_on(sim: Sim, res: CaseResult, when: str, phase: str, comp: List[st
 # ---------------------------------------------------------------------------------------------------------------------
 
 
+def check_frozen(sim: Sim, res: CaseResult, when: str, phase: str, state0: str, fp0: Dict[str, Tuple]):
+    """A tick that starts and ends with the node not ON: nothing that takes time may advance, no software / file-system
+    state may change, except what _shut_down_actions does in the tick that completes the shutdown."""
+    fp1 = sim.activity_fp()
+    state1 = sim.state()
+    if state0 == SHUTTING_DOWN and state1 != SHUTTING_DOWN:
+        stop = {("service", "RUNNING"): "STOPPED", ("service", "PAUSED"): "STOPPED", ("application", "RUNNING"): "CLOSED"}
+        sw1 = {r[0]: r for r in fp1["software"]}
+        rows = []
+        for r in fp0["software"]:  # operating state may stay or become what _shut_down_actions makes of it
+            r1 = sw1.get(r[0])
+            if r1 is not None and r1[2] in (r[2], stop.get((r[1], r[2]))):
+                r = r[:2] + (r1[2],) + r[3:]
+            rows.append(r)
+        fp0 = dict(fp0)
+        fp0["software"] = tuple(rows)
+    for part in ("software", "file_system", "node"):
+        if fp0[part] != fp1[part]:
+            a, b = fp0[part], fp1[part]
+            diff = [(x, y) for x, y in zip(a, b) if x != y][:2] if len(a) == len(b) and part != "node" else [(a, b)]
+            res.violate(f"activity-progressed-not-on:{part}:{phase}",
+                        f"{when}: node went {state0} -> {state1} in this tick and {part} changed: {diff}"[:700])
+
+
 class _Raised(Exception):
     """The code under test raised; the violation is already recorded and the case stops here."""
 
@@ -753,6 +807,8 @@ def op_key(op: List) -> Optional[str]:
         return f"file-{op[1]}:{op[2]}"
     if op[0] == "app":
         return f"app-{op[1]}"
+    if op[0] == "act":
+        return f"act-{op[1]}"
     return None
 
 
@@ -800,9 +856,9 @@ def run_case(case: Dict) -> CaseResult:
         check_not_on(sim, res, "init", model.phase, comp)
 
     for op in ops:
-        if op[0] not in ("shutdown", "startup", "reset", "tick", "svc", "file", "app", "api", "ping", "arp") or (
+        if op[0] not in ("shutdown", "startup", "reset", "tick", "svc", "file", "app", "api", "act", "ping", "arp") or (
             op[0] == "api" and op[1] not in API_OPS
-        ):
+        ) or (op[0] == "act" and op[1] not in ACTS):
             raise ValueError(f"C12 harness: unknown op {op}")
     nontrivial = False
     seen = {obs}
@@ -829,8 +885,12 @@ def run_case(case: Dict) -> CaseResult:
                         res.violate(f"power-request-accepted:{k}:{pre_phase}", f"{when}: node is {pre} but {k} -> success")
                 name = None
             elif k == "tick":
+                fp0 = sim.activity_fp() if sim.state() != ON else None
+                state0 = sim.state()
                 guarded(res, k, when, sim.tick)
                 cands, name = model.after_tick()
+                if fp0 is not None and sim.state() != ON:
+                    check_frozen(sim, res, when, pre_phase, state0, fp0)
             elif k == "api":
                 if not guarded(res, f"api-{op[1]}", when, sim.api, op[1]):
                     res.label("op-not-applicable")
@@ -839,7 +899,7 @@ def run_case(case: Dict) -> CaseResult:
                 if pre != ON:
                     nontrivial = True
                 cands, name = {pre: dict()}, None
-            elif k in ("svc", "file", "app"):
+            elif k in ("svc", "file", "app", "act"):
                 key = op_key(op)
                 if key not in sim.reqs:
                     res.label("op-not-applicable")
@@ -847,6 +907,8 @@ def run_case(case: Dict) -> CaseResult:
                 status = guarded(res, key, when, sim.request, key).status
                 if status not in STATUSES:
                     res.violate("bad-status", f"{when}: {status}")
+                if k == "act" and pre == ON:
+                    res.label(f"act:{op[1]}:{status}")
                 if pre != ON:
                     nontrivial = True
                     if status == "success":
@@ -968,6 +1030,8 @@ def noise_strategy():
         st.tuples(st.just("app"), st.sampled_from(APP_VERBS)).map(list),
         st.tuples(st.just("api"), st.sampled_from(API_OPS)).map(list),
         st.tuples(st.just("api"), st.sampled_from(API_OPS)).map(list),
+        st.tuples(st.just("act"), st.sampled_from(ACTS)).map(list),
+        st.tuples(st.just("act"), st.sampled_from(ACTS)).map(list),
         st.just(["ping"]),
         st.just(["arp"]),
     )
@@ -1027,6 +1091,8 @@ def family_cases(durs: List[int], mk):
     """Two enumerated families that need more depth than the exhaustive part has.
 
     (a) whole power cycles with prepared software states: prep, shutdown|reset, ticks until OFF, (startup,) ticks until ON;
+    (c) a multi-tick activity (application install, service restart / fix, application fix, folder scan / restore, node
+        scans) started just before a shutdown or reset, then ticks through the whole cycle;
     (b) every API-level operation that ends in NetworkInterface.enable(), issued once in each non-ON state
         (SHUTTING_DOWN, OFF, BOOTING; declared OFF, BOOTING from declared OFF) and followed by a ping from the peer.
     """
@@ -1038,6 +1104,10 @@ def family_cases(durs: List[int], mk):
                     for via in ("shutdown", "reset"):
                         ops = prep + [[via]] + [T] * (dd + 1) + ([["startup"]] if via == "shutdown" else []) + [T] * (du + 1) + [["ping"]]
                         yield mk(kind, du, dd, ON, ops)
+                for act in ACTS:
+                    for via in ("shutdown", "reset"):
+                        ops = [["act", act], [via]] + [T] * (dd + 3) + ([["startup"]] if via == "shutdown" else []) + [T] * (du + 3)
+                        yield mk(kind, du, dd, ON, ops)
                 for api in API_OPS:
                     a, down = ["api", api], [["shutdown"]] + [T] * (dd + 1)
                     yield mk(kind, du, dd, ON, [["shutdown"], a, ["ping"]])  # SHUTTING_DOWN (OFF when dd = 0)
@@ -1048,7 +1118,7 @@ def family_cases(durs: List[int], mk):
 
 
 def n_family(durs: List[int]) -> int:
-    return len(KINDS) * len(durs) ** 2 * (len(PREPS) * 2 + len(API_OPS) * 5)
+    return len(KINDS) * len(durs) ** 2 * (len(PREPS) * 2 + len(API_OPS) * 5 + len(ACTS) * 2)
 
 
 def worker(ctx: Ctx):
@@ -1064,6 +1134,7 @@ def worker(ctx: Ctx):
         f"({n_seq} sequences of length {depth} over the 8-symbol alphabet containing a shutdown or reset, initial state ON, "
         f"+ all {n_off} sequences of length {depth - 1}, declared OFF) x {len(KINDS)} node types x durations {durs}^2 = "
         f"{(n_seq + n_off) * per} cases; + {n_family(durs)} enumerated family cases (power cycles with prepared PAUSED/STOPPED/"
-        f"DISABLED/CLOSED software; every enable()-reaching API operation in every non-ON state)"
+        f"DISABLED/CLOSED software; every enable()-reaching API operation in every non-ON state; multi-tick activities in "
+        f"flight across a shutdown/reset)"
     )
     hyp_run(ctx, case_strategy(25, comp), run_case, 100 if quick else 1500)
